@@ -254,8 +254,10 @@ func c18pool(c *Ctx, fn *ssa.Function) {
 	reach := an.Explore(cond, an.After(over), an.Facts{extract(over.Value(), 1): an.False}, nil)
 	bad := false
 	for _, ret := range reach.Returns() {
-		if reach.EvalAt(ret.Results[0], ret) != an.False {
-			bad = true
+		for _, alt := range reach.Alts(ret) {
+			if reach.EvalAlt(alt, 0) != an.False {
+				bad = true
+			}
 		}
 	}
 	r.Check(!bad, "PATH", key+"/continue-condition/needs-overutilized", c.InstrPos(over), "stops when the node is back under its high threshold", "the continue-condition can return true for a node that is not overutilized")
@@ -265,10 +267,12 @@ func c18pool(c *Ctx, fn *ssa.Function) {
 		reach = an.Explore(cond, nil, an.Facts{cmpHead: an.True}, nil)
 		bad = false
 		for _, ret := range reach.Returns() {
-			if reach.EvalAt(ret.Results[0], ret) == an.True {
-				// true may only be returned when the loop found no thresholded resource at all (zero iterations)
-				for _, g := range an.Guards(ret) {
-					_ = g
+			for _, alt := range reach.Alts(ret) {
+				if reach.EvalAlt(alt, 0) == an.True {
+					// true may only be returned when the loop found no thresholded resource at all (zero iterations)
+					for _, g := range alt.Guards {
+						_ = g
+					}
 				}
 			}
 		}
@@ -276,8 +280,10 @@ func c18pool(c *Ctx, fn *ssa.Function) {
 		if in, ok := cmpHead.(ssa.Instruction); ok {
 			reach = an.Explore(cond, an.After(in), an.Facts{cmpHead: an.True}, nil)
 			for _, ret := range reach.Returns() {
-				if reach.EvalAt(ret.Results[0], ret) != an.False {
-					bad = true
+				for _, alt := range reach.Alts(ret) {
+					if reach.EvalAlt(alt, 0) != an.False {
+						bad = true
+					}
 				}
 			}
 		}
